@@ -279,6 +279,32 @@ def install():
     _installed = True
 
 
+# optional (C08, cases with "glue"): the thread executing run()/join() of such a case is registered here;
+# whenever it calls time.sleep (the wait loop's pause between two polls) the driver may keep it there
+_parkers = {}
+_park_prev = [None]
+
+
+def _park_dispatch(secs):
+    env = _parkers.get(threading.get_ident())
+    if env is not None:
+        env.park()
+    return _park_prev[0](secs)
+
+
+def install_park():
+    """idempotent; only called for cases with "glue".  time.sleep in the harness process becomes a
+    dispatcher that behaves as whatever was installed before except for registered threads (patched at
+    the source, plus a `from time import sleep` copy in invoke.runners if there is one)."""
+    import invoke.runners as R
+    if time.sleep is not _park_dispatch:
+        prev = time.sleep
+        _park_prev[0] = prev
+        time.sleep = _park_dispatch
+        if getattr(R, "sleep", None) is prev:
+            R.sleep = _park_dispatch
+
+
 class ScriptedIn:
     """in_stream stand-in.  mode 'text' returns str units, 'bytes' returns bytes
     units (which read_our_stdin decodes one read at a time).  No fileno, so
@@ -295,8 +321,15 @@ class ScriptedIn:
 
 
 class Env:
-    def __init__(self, events, never_eof=(), reap_echild=False, pending_at_timer=False, real_kill=False):
+    def __init__(self, events, never_eof=(), reap_echild=False, pending_at_timer=False, real_kill=False,
+                 glue=()):
         self.cv = threading.Condition()
+        # optional (C08): indices i such that event i+1 happens in the same poll interval as event i (no
+        # iteration of the wait loop in between) -- see _deliver_burst.  Empty: nothing changes.
+        self.glue = set(int(i) for i in glue)
+        self.hold_sleep = False       # the driver asks the main thread to stay in the wait loop's sleep
+        self.parked = False           # ... and it is there now
+        self.bursts = []              # [first, last] of every group that was delivered atomically
         self.events = [list(e) for e in events]
         self.never_eof = set(never_eof)
         self.reap_echild = reap_echild
@@ -488,11 +521,30 @@ class Env:
             if not self._wait(lambda: self.threads is not None):
                 self.hang = self.hang or "workers never created"
                 return
+            burst_end = -1
             for idx, ev in enumerate(self.events):
                 if self.abort or self.run_done:
                     break
                 kind = ev[0]
                 ok = True
+                if idx <= burst_end:
+                    continue                      # delivered as part of a burst
+                if idx in self.glue and (idx == 0 or idx - 1 not in self.glue):
+                    last = idx
+                    while last in self.glue and last + 1 < len(self.events):
+                        last += 1
+                    r = self._deliver_burst(idx, last)
+                    if r is not None:
+                        burst_end = last
+                        if not r:
+                            self.hang = self.hang or ("burst %d..%d not consumed" % (idx, last))
+                            break
+                        if not self._settle():
+                            self.hang = self.hang or ("after burst %d..%d the main thread neither waits nor "
+                                                      "finishes" % (idx, last))
+                            break
+                        continue
+                    # the main thread is past its wait loop: nothing polls any more, one event at a time
                 if kind in ("out", "err"):
                     if self._worker_gone(kind):
                         self.skipped.append(idx)
@@ -638,6 +690,95 @@ class Env:
                     self.cv.notify_all()
                     break
                 self.cv.wait(0.005)
+
+    # ---- optional (C08): several events within ONE poll interval of the wait loop ----------
+    BURST_KINDS = ("out", "err", "exc", "werr", "exc_base", "exit", "timer")
+
+    def park(self):
+        """called (through the time.sleep dispatcher) by the thread that executes run()/join() whenever it
+        goes to sleep: while the driver holds it, it stays there -- i.e. this sleep of the wait loop lasts
+        until the whole burst has happened"""
+        with self.cv:
+            if not self.hold_sleep or self._past_wait() or self.abort:
+                return
+            self.parked = True
+            self.cv.notify_all()
+            deadline = time.time() + Limits.run * 2
+            while self.hold_sleep and not self.abort and time.time() < deadline:
+                self.cv.wait(0.05)
+            self.parked = False
+            self.cv.notify_all()
+
+    def _deliver_burst(self, first, last):
+        """events first..last happen while the main thread sleeps between two iterations of its wait loop
+        (cv held).  None: not applicable (the main thread has left the wait loop, or a kind that is tied to
+        a poll) -- the caller delivers them one at a time; else True / False (= something was not consumed)."""
+        if any(self.events[i][0] not in self.BURST_KINDS for i in range(first, last + 1)):
+            return None
+        self.hold_sleep = True
+        self.cv.notify_all()
+        if not self._wait(lambda: self.parked or self._past_wait()) or not self.parked or self.abort \
+                or self.run_done:
+            self.hold_sleep = False
+            self.cv.notify_all()
+            return None
+        ok = True
+        died = False
+        try:
+            for idx in range(first, last + 1):
+                ev = self.events[idx]
+                kind = ev[0]
+                if kind in ("out", "err"):
+                    if self._worker_gone(kind):
+                        self.skipped.append(idx)
+                        continue
+                    self.avail[kind].append((idx, bytes(ev[1])))
+                    self.cv.notify_all()
+                    ok = self._wait(lambda: idx in self.consumed or self._worker_gone(kind))
+                elif kind == "exit":
+                    self.after_exit = True
+                    if self.exited is None:
+                        self.exited = ev[1]
+                    self.consumed.append(idx)
+                elif kind == "timer":
+                    t = self.timer
+                    if t is not None:
+                        self.cv.release()
+                        try:
+                            t.fire()
+                        finally:
+                            self.cv.acquire()
+                        if self.exited is not None:
+                            self.after_exit = True
+                    self.consumed.append(idx)
+                else:
+                    who = ev[1]
+                    if self._worker_gone(who):
+                        self.skipped.append(idx)
+                        continue
+                    if kind == "exc":
+                        self.exc_pending[who] = OhNoz("injected")
+                    elif kind == "exc_base":
+                        self.exc_pending[who] = SystemExit(3)
+                    else:
+                        from invoke.exceptions import WatcherError
+                        self.exc_pending[who] = WatcherError("injected")
+                    self.cv.notify_all()
+                    ok = self._wait(lambda: self._worker_gone(who))
+                    died = True
+                    self.consumed.append(idx)
+                if not ok or self.abort or self.run_done:
+                    break
+        finally:
+            self.hold_sleep = False
+            self.cv.notify_all()
+        if not ok:
+            return False
+        self.bursts.append([first, last])
+        if self.exited is not None or died:
+            # either makes the main thread leave its wait loop at the next iteration
+            return self._wait(self._past_wait)
+        return True
 
     def _settled_in_wait(self):
         p0 = self.polls
@@ -938,7 +1079,10 @@ def run_scripted(case, in_stream=None, input_sleep=None):
                 "started": False, "outcome": "HANG", "stdout": None, "stderr": None, "exited": None}
     env = Env(case.get("events", []), never_eof=case.get("never_eof", ()),
               reap_echild=bool(case.get("pty")) and bool(case.get("reap_echild", True)),
-              pending_at_timer=bool(case.get("pending_at_timer")), real_kill=bool(case.get("real_kill")))
+              pending_at_timer=bool(case.get("pending_at_timer")), real_kill=bool(case.get("real_kill")),
+              glue=case.get("glue") or ())
+    if env.glue:
+        install_park()
     overrides = {}
     if case.get("config_timeout") is not None:
         overrides["timeouts"] = {"command": case["config_timeout"]}
@@ -1001,6 +1145,8 @@ def run_scripted(case, in_stream=None, input_sleep=None):
     box = {}
 
     def call():
+        if env.glue:
+            _parkers[threading.get_ident()] = env
         try:
             r = runner.run("scripted", **kwargs)
             if case.get("async") and r is not None:
@@ -1010,6 +1156,7 @@ def run_scripted(case, in_stream=None, input_sleep=None):
         except BaseException as e:  # noqa
             box["exc"] = e
         finally:
+            _parkers.pop(threading.get_ident(), None)
             with env.cv:
                 env.call_done = True
                 env.cv.notify_all()
@@ -1074,6 +1221,7 @@ def run_scripted(case, in_stream=None, input_sleep=None):
         "joins": [[w, tm] for w, tm in env.joins],
         "exit_observed": env.exit_observed,
         "started": env.started,
+        "bursts": [list(b) for b in env.bursts],
     }
     # let leftover workers go
     with env.cv:
